@@ -164,6 +164,39 @@ def task(t):
     return dict(n=n, distinct=len(distinct), violations=viols, sample=sample)
 
 
+def refusal_task(_t):
+    """the server refuses the AUTHENTICATE command itself (before any challenge): one attempt with the one chosen mechanism, then connect
+    fails - no other mechanism is tried with the caller's credentials"""
+    viols = []
+    n = 0
+    for announced in sasl_lists():
+        want = expected_mech(announced, None)
+        if want is None:
+            continue
+        for action in ("NO", "NO-BARE"):
+            caps = [(b"IMPLEMENTATION", b"x"), (b"SASL", " ".join(announced).encode()), (b"SIEVE", b"fileinto")]
+            srv = refms.RefServer(caps_plain=caps, faults=[("AUTHSTART", 0, action)])
+            srv.digest_users = {"user": "pass"}
+            s = wire.open_session(srv)
+            o = s.connect_outcome
+            n += 1
+            sent = [a[0][1].decode().upper() for v, a in srv.log if v == "AUTHENTICATE"]
+            bad = None
+            if o.kind in ("livelock", "hang"):
+                bad = ("no-return", "connect does not return")
+            elif o.kind == "exc" and o.exc_type != "Error":
+                bad = ("exception:%s" % o.exc_type, "AUTHENTICATE %s refused: connect raised %s" % (want, o.brief()))
+            elif sent != [want]:
+                bad = ("second-attempt", "AUTHENTICATE %s was refused; commands sent: %r" % (want, sent))
+            elif o.kind == "ret" and o.value is True:
+                bad = ("verdict", "the only AUTHENTICATE was refused, connect returned True")
+            if bad:
+                viols.append({"property": "C16", "engine": "wire", "signature": ["C16", want, "refused-at-start", bad[0]],
+                              "what": "announced %r, %s to AUTHENTICATE: %s" % (announced, action, bad[1]), "case": {"refusal": True},
+                              "witness": "SASL %r %s at AUTHENTICATE" % (announced, action), "observed": o.brief()})
+    return dict(n=n, distinct=n, violations=viols, sample=None)
+
+
 def tls_task(_t):
     """connect(starttls=True): the mechanism must come from the list announced AFTER the handshake - also when that list is missing
     or empty (then nothing qualifies and no credentials may be sent)"""
@@ -226,6 +259,7 @@ def run(tier, seed):
     chunks = [lists[i::16] for i in range(16)]
     res = pool.run_tasks("checks.c16:task", [c for c in chunks if c])
     res += pool.run_tasks("checks.c16:tls_task", [0], force_pool=True)
+    res += pool.run_tasks("checks.c16:refusal_task", [0], force_pool=True)
     top = 160 if tier == "quick" else 1300
     res += pool.run_tasks("checks.c16:len_task", [(m, lo, min(top, lo + 20)) for m in IMPLEMENTED for lo in range(0, top, 20)])
     n = sum(r["n"] for r in res)
@@ -245,6 +279,8 @@ def run(tier, seed):
 
 def replay(payload):
     c = payload["case"]
+    if c.get("refusal"):
+        return [v for v in refusal_task(0)["violations"] if v["signature"] == payload["signature"]]
     if c.get("tls"):
         return [v for v in tls_task(0)["violations"] if v["signature"] == payload["signature"]]
     if c.get("ladder"):
